@@ -844,6 +844,91 @@ def shard_atoms(args):
     return acc
 
 
+# ------------------------------------------------------------------------------------ (c') parse histories
+# What a string denotes must not depend on what was parsed before, nor on what the caller did to the
+# formulas earlier parses returned (every parse returns an object of its own).  Events: parse(s) for a
+# few strings - among them the blank strings, whatever they denote - and "customise the last result"
+# (+=, name, density).  Every path of <= depth events runs in its own chain of forked interpreters.
+HIST_STRINGS = ("", " ", "  ", "H2O", "H2O@1", "2H2O+D2O", "Fe{2+}2O3@5n", "(H2O)2", "D{+}")
+
+
+def _hist_obs(f):
+    def walk(st):
+        return tuple((repr(c), walk(x) if isinstance(x, (list, tuple)) else str(x)) for c, x in st)
+    return (walk(f.structure), None if f.density is None else "%.12g" % f.density, f.name)
+
+
+def _hist_node(env, hist, depth, acc):
+    from ..histmc import in_fork
+    events = [("parse", s) for s in HIST_STRINGS] + [("customise",)]
+    for ev in events:
+        if ev[0] == "customise" and not (hist and hist[-1][0] == "parse"):
+            continue
+        def node(ev=ev):
+            sub = Acc()
+            ns = env.__dict__.setdefault("_hist_ns", dict(first={}, last=None, made=[]))
+            sub.transitions += 1
+            sub.evaluations += 1
+            h2 = [list(e) for e in hist] + [list(ev)]
+            code = "import periodictable as pt\n" + "".join(
+                ("f = pt.formula(%r); print(repr(f), f.density, f.name)\n" % e[1]) if e[0] == "parse" else
+                "f += pt.formula('NaCl'); f.name = 'customised'; f.density = 3.21\n" for e in h2)
+            if ev[0] == "parse":
+                st, f = env.run(ev[1])
+                if st != "ok":
+                    ob = ("raises", type(f).__name__)
+                else:
+                    ob = _hist_obs(f)
+                    if any(f is g for g in ns["made"]):
+                        sub.violation("parse-history:returns-an-object-handed-out-before", dict(kind="history", history=h2),
+                                      expected="a formula object of its own", observed="the same object as an earlier parse",
+                                      standalone=code)
+                        return sub, False
+                    ns["made"].append(f)
+                    ns["last"] = f
+                want = ns["first"].setdefault(ev[1], ob)
+                if ob != want:
+                    sub.violation("parse-history:result-depends-on-earlier-parses", dict(kind="history", history=h2),
+                                  expected=repr(want), observed=repr(ob), standalone=code)
+                    return sub, False
+            else:
+                f = ns["last"]
+                f += env.parse("NaCl", **env.kw)
+                f.name = "customised"
+                f.density = 3.21
+            sub.states += 1
+            sub.nontrivial += 1
+            go = len(hist) + 1 < depth
+            if go:
+                _hist_node(env, hist + (ev,), depth, sub)
+            return sub, True
+        sub, _ = in_fork(node)
+        acc.merge(sub)
+
+
+def shard_history(args):
+    private, first, depth = args
+    from ..histmc import in_fork
+    env = env_for(private)
+    acc = Acc()
+    def root():
+        sub = Acc()
+        ns = env.__dict__.setdefault("_hist_ns", dict(first={}, last=None, made=[]))
+        # reference observations of every string from THIS pristine state are taken lazily (first parse wins
+        # inside a path); across paths they are compared through the fixed first event
+        st, f = env.run(first)
+        sub.transitions += 1; sub.evaluations += 1; sub.states += 1
+        if st == "ok":
+            ns["first"][first] = _hist_obs(f); ns["made"].append(f); ns["last"] = f
+        else:
+            ns["first"][first] = ("raises", type(f).__name__)
+        _hist_node(env, (("parse", first),), depth, sub)
+        return sub
+    acc.merge(in_fork(root))
+    acc.sample(dict(kind="history", first=first, depth=depth))
+    return acc
+
+
 # ------------------------------------------------------------------------------------ (d) malformations
 # A dangling or doubled '+' is outside the grammar too, but the property text lists only unknown
 # symbols, undefined isotopes/charges and malformed brackets, counts and tags as "rejected with an
@@ -975,6 +1060,7 @@ def _plan(tier_quick, private, jobs):
         plan += [(shard_structural, (private, "chain", 3, 4, 3, p, 8, (3, 4, 4))) for p in range(8)]
     # (c) one-atom sweep
     plan += [(shard_atoms, (private, p, 16)) for p in range(16)]
+    plan += [(shard_history, (private, s0, 3 if tier_quick else 4)) for s0 in HIST_STRINGS]
     # (d) malformations
     if tier_quick or private:
         plan += [(shard_malformed, (private, 2, 1, 1, p, 16)) for p in range(16)]
@@ -1007,8 +1093,33 @@ def run(ctx):
 
 def replay(ctx, case, signature=None):
     env = env_for(case.get("table") == "private")
-    s = case["s"]
     kind = case.get("kind")
+    if kind == "history":
+        from ..histmc import in_fork
+        hist = [tuple(e) for e in case["history"]]
+        def work():
+            sub = Acc()
+            ns = dict(first={}, last=None, made=[])
+            for i, ev in enumerate(hist):
+                if ev[0] == "parse":
+                    st, f = env.run(ev[1])
+                    ob = _hist_obs(f) if st == "ok" else ("raises", type(f).__name__)
+                    if st == "ok":
+                        if any(f is g for g in ns["made"]):
+                            sub.violation("parse-history:returns-an-object-handed-out-before", case,
+                                          "a formula object of its own", "the same object as an earlier parse")
+                            break
+                        ns["made"].append(f); ns["last"] = f
+                    want = ns["first"].setdefault(ev[1], ob)
+                    if ob != want:
+                        sub.violation("parse-history:result-depends-on-earlier-parses", case, repr(want), repr(ob))
+                        break
+                else:
+                    f = ns["last"]; f += env.parse("NaCl", **env.kw); f.name = "customised"; f.density = 3.21
+            return sub
+        ctx.acc.merge(in_fork(work))
+        return
+    s = case["s"]
     if kind == "valid":
         check_valid(env, s, ctx.acc)
     elif kind == "atom":
